@@ -11,6 +11,8 @@ MC_CFG = "SPECIFICATION Spec\nCONSTANT UPD = {upd}\nINVARIANT AlgorithmIsModular
 UNITS = ["hours", "minutes", "seconds", "milliseconds", "ticks", "nanoseconds"]
 UNIT_NS = {"hours": 3600 * 10**9, "minutes": 60 * 10**9, "seconds": 10**9, "milliseconds": 10**6, "ticks": 100, "nanoseconds": 1}
 NPD = proj.NPD
+ARITH = {"ISO", "Gregorian", "Julian", "Coptic", "Hebrew Civil", "Hebrew Scriptural", "Persian Simple"} | {
+    f"Hijri {e}-{p}" for e in ("Civil", "Astronomical") for p in ("Base15", "Base16", "Indian", "HabashAlHasib")}
 
 
 def amount_fields(unit: str, k: int) -> dict:
@@ -51,7 +53,10 @@ def gen(args) -> list:
             return rnd.choice([-1, 1]) * (2**63 + rnd.choice([-1, 0, 1]))
         if c < 0.7:
             return rnd.choice([-1, 1]) * 10 ** rnd.randint(28, 41) + rnd.randint(-5, 5)
-        if c < 0.85:
+        if c < 0.78:
+            # just short of / just past a large whole number of days (exact integer carries are needed here)
+            return rnd.choice([-1, 1]) * rnd.choice([128, 200, 1000, 16384, 20000, 10**5, 3 * 10**5]) * upd + rnd.choice([-1, 0, 1])
+        if c < 0.88:
             return rnd.randint(-3 * upd, 3 * upd)
         return rnd.randint(-10**6, 10**6) * upd + rnd.randint(-upd, upd)
 
@@ -118,7 +123,20 @@ def gen(args) -> list:
             for kk, v in amts.items():
                 if v:
                     p = p + getattr(Period, "from_" + kk)(v)
+            ym = {"years": 0, "months": 0}
+            if cal.id in ARITH and rnd.random() < 0.6:
+                ym = {"years": rnd.choice([0, 0, 1, -1, 4, rnd.randint(-30, 30)]), "months": rnd.choice([0, 1, -1, 12, 13, rnd.randint(-40, 40)])}
+                d0 = LocalDate._ctor(days_since_epoch=day, calendar=cal)
+                if rnd.random() < 0.5:
+                    # month ends are where the order "date units first, then time units" shows
+                    d0 = LocalDate(d0.year, d0.month, cal.get_days_in_month(d0.year, d0.month), cal)
+                    day = d0._days_since_epoch
+                    ldt = d0.at(lt)
+                for kk, v in ym.items():
+                    if v:
+                        p = getattr(Period, "from_" + kk)(v) + p
             ev = {"op": "ldt_period", "day": day, "cal": cal.id, "min_day": lo, "max_day": hi, "t": tt(nod), "weeks": amts["weeks"],
+                  "years": ym["years"], "months": ym["months"], "ymd": [ldt.year, ldt.month, ldt.day], "arith": cal.id in ARITH,
                   "days": amts["days"], "h": proj.amount_digits("hours", amts["hours"]), "mi": proj.amount_digits("minutes", amts["minutes"]),
                   "s": proj.amount_digits("seconds", amts["seconds"]), "ms": proj.amount_digits("milliseconds", amts["milliseconds"]),
                   "tk": proj.amount_digits("ticks", amts["ticks"]), "ns": proj.amount_digits("nanoseconds", amts["nanoseconds"])}
